@@ -213,4 +213,211 @@ theorem find_addNewGroups (uf ef : List Entry) (g k : Str) :
   rw [(isKey_true he).1]
 
 
+/-- (section, key) of an entry -/
+def keyOf (e : Entry) : Str × Str := (e.group, e.key)
+
+theorem keyOf_cpy (e : Entry) : keyOf (cpyEntry e) = keyOf e := rfl
+theorem keyOf_overrideValue (ef : List Entry) (u : Entry) : keyOf (overrideValue ef u) = keyOf u := by
+  unfold overrideValue; cases findEntry ef u.group u.key <;> rfl
+theorem group_overrideValue (ef : List Entry) (u : Entry) : (overrideValue ef u).group = u.group := by
+  unfold overrideValue; cases findEntry ef u.group u.key <;> rfl
+theorem key_overrideValue (ef : List Entry) (u : Entry) : (overrideValue ef u).key = u.key := by
+  unfold overrideValue; cases findEntry ef u.group u.key <;> rfl
+
+theorem mem_firstDefsAux {seen l : List Entry} {e : Entry} (h : e ∈ firstDefsAux seen l) : e ∈ l := by
+  induction l generalizing seen with
+  | nil => simp [firstDefsAux] at h
+  | cons x xs ih =>
+    unfold firstDefsAux at h
+    split at h
+    · exact List.mem_cons_of_mem _ (ih h)
+    · cases h with
+      | head => exact List.mem_cons_self
+      | tail _ h' => exact List.mem_cons_of_mem _ (ih h')
+
+theorem firstDefsAux_sublist (seen l : List Entry) : (firstDefsAux seen l).Sublist l := by
+  induction l generalizing seen with
+  | nil => simp [firstDefsAux]
+  | cons x xs ih =>
+    unfold firstDefsAux
+    split
+    · exact (ih _).cons _
+    · exact (ih _).cons_cons _
+
+theorem firstDefs_sublist (l : List Entry) : (firstDefs l).Sublist l := firstDefsAux_sublist [] l
+
+theorem defines_of_mem {l : List Entry} {e : Entry} (h : e ∈ l) : defines l e.group e.key = true := by
+  rw [defines_eq]; exact List.any_eq_true.mpr ⟨e, h, isKey_self e⟩
+
+theorem hasGroup_of_mem {l : List Entry} {e : Entry} (h : e ∈ l) : hasGroup l e.group = true := by
+  unfold hasGroup; exact List.any_eq_true.mpr ⟨e, h, by simp⟩
+
+/-- every entry of a block of copied first definitions comes from the override and passes the filter -/
+theorem mem_block {ef : List Entry} {q : Entry → Bool} {e : Entry}
+    (h : e ∈ ((firstDefs ef).filter q).map cpyEntry) : ∃ e', e' ∈ ef ∧ q e' = true ∧ e = cpyEntry e' := by
+  obtain ⟨e', he', rfl⟩ := List.mem_map.mp h
+  have := List.mem_filter.mp he'
+  exact ⟨e', mem_firstDefsAux this.1, this.2, rfl⟩
+
+/-- groups of everything `mergeExistingAux` emits for `rem` are groups of `rem` -/
+theorem group_mem_mergeExistingAux {uf ef rem : List Entry} {e : Entry}
+    (h : e ∈ mergeExistingAux uf ef rem) : hasGroup rem e.group = true := by
+  induction rem with
+  | nil => simp [mergeExistingAux] at h
+  | cons u us ih =>
+    unfold mergeExistingAux at h
+    rw [hasGroup_cons]
+    rcases List.mem_cons.mp h with h | h
+    · rw [h, group_overrideValue]; simp
+    · rcases List.mem_append.mp h with h | h
+      · split at h
+        · simp at h
+        · unfold newKeysOf at h
+          obtain ⟨e', _, hq, rfl⟩ := mem_block h
+          simp only [Bool.and_eq_true, beq_iff_eq] at hq
+          show (u.group == e'.group || hasGroup us e'.group) = true
+          simp [hq.1]
+      · simp [ih h]
+
+
+theorem not_defines_of_mem_newKeysOf {uf ef : List Entry} {g : Str} {e : Entry} (h : e ∈ newKeysOf uf ef g) :
+    e.group = g ∧ defines uf e.group e.key = false := by
+  unfold newKeysOf at h
+  obtain ⟨e', _, hq, rfl⟩ := mem_block h
+  simp only [Bool.and_eq_true, beq_iff_eq, Bool.not_eq_true'] at hq
+  refine ⟨hq.1, ?_⟩
+  show defines uf e'.group e'.key = false
+  rw [hq.1]; exact hq.2
+
+theorem group_mem_insertNoGroup {uf ef : List Entry} {e : Entry} (h : e ∈ insertNoGroup uf ef) :
+    e.group = NONE ∧ hasGroup uf NONE = false := by
+  unfold insertNoGroup at h
+  split at h
+  · simp at h
+  · rename_i hn
+    obtain ⟨e', _, hq, rfl⟩ := mem_block h
+    have hq' : e'.group = NONE := by simpa using hq
+    exact ⟨hq', by simpa using hn⟩
+
+theorem group_mem_addNewGroups {uf ef : List Entry} {e : Entry} (h : e ∈ addNewGroups uf ef) :
+    e.group ≠ NONE ∧ hasGroup uf e.group = false := by
+  unfold addNewGroups at h
+  obtain ⟨e', _, hq, rfl⟩ := mem_block h
+  simp only [Bool.and_eq_true, bne_iff_ne, ne_eq, Bool.not_eq_true'] at hq
+  exact hq
+
+
+def cnt (p : Entry → Bool) (l : List Entry) : Nat := (l.filter p).length
+
+theorem cnt_le_of_imp {p q : Entry → Bool} (l : List Entry) (h : ∀ e, p e = true → q e = true) :
+    cnt p l ≤ cnt q l := by
+  induction l with
+  | nil => simp [cnt]
+  | cons x xs ih =>
+    unfold cnt at *
+    simp only [List.filter_cons]
+    cases hp : p x with
+    | true => simp [h x hp]; omega
+    | false =>
+      cases hq : q x with
+      | true => simp; omega
+      | false => simpa using ih
+
+theorem cnt_add_le_of_disjoint {p q r : Entry → Bool} (l : List Entry)
+    (hp : ∀ e, p e = true → r e = true) (hq : ∀ e, q e = true → r e = true)
+    (hd : ∀ e, p e = true → q e = false) : cnt p l + cnt q l ≤ cnt r l := by
+  induction l with
+  | nil => simp [cnt]
+  | cons x xs ih =>
+    unfold cnt at *
+    simp only [List.filter_cons]
+    cases hpx : p x with
+    | true =>
+      have := hd x hpx
+      simp [this, hp x hpx]; omega
+    | false =>
+      cases hqx : q x with
+      | true => simp [hq x hqx]; omega
+      | false =>
+        cases hrx : r x with
+        | true => simp; omega
+        | false => simpa using ih
+
+theorem cnt_le_length (p : Entry → Bool) (l : List Entry) : cnt p l ≤ l.length := List.length_filter_le _ _
+
+/-- length of what `mergeExistingAux` emits: the base entries plus at most the first
+    definitions of the override whose group occurs in `rem` -/
+theorem length_mergeExistingAux (uf ef rem : List Entry) :
+    (mergeExistingAux uf ef rem).length ≤ rem.length + cnt (fun e => hasGroup rem e.group) (firstDefs ef) := by
+  induction rem with
+  | nil => simp [mergeExistingAux, cnt, hasGroup]
+  | cons u us ih =>
+    unfold mergeExistingAux
+    simp only [List.length_cons, List.length_append]
+    by_cases hg : hasGroup us u.group = true
+    · simp only [hg, if_true, List.length_nil]
+      have : cnt (fun e => hasGroup us e.group) (firstDefs ef) ≤ cnt (fun e => hasGroup (u :: us) e.group) (firstDefs ef) :=
+        cnt_le_of_imp _ (fun e he => by rw [hasGroup_cons]; simp [he])
+      omega
+    · have hg' : hasGroup us u.group = false := by simpa using hg
+      simp only [hg', Bool.false_eq_true, if_false]
+      have hnk : (newKeysOf uf ef u.group).length ≤ cnt (fun e => e.group == u.group) (firstDefs ef) := by
+        unfold newKeysOf cnt
+        rw [List.length_map]
+        exact cnt_le_of_imp (p := fun e => e.group == u.group && !defines uf u.group e.key) _ (fun e he => by
+          simp only [Bool.and_eq_true] at he; exact he.1)
+      have hdis := cnt_add_le_of_disjoint (p := fun e => e.group == u.group) (q := fun e => hasGroup us e.group)
+        (r := fun e => hasGroup (u :: us) e.group) (firstDefs ef)
+        (fun e he => by rw [hasGroup_cons]; simp at he; simp [he])
+        (fun e he => by rw [hasGroup_cons]; simp [he])
+        (fun e he => by simp at he; rw [he]; exact hg')
+      omega
+
+/-- no two entries with the same (section, key) -/
+def KeysNodup (l : List Entry) : Prop := l.Pairwise (fun a b => keyOf a ≠ keyOf b)
+
+theorem keyOf_ne_of_not_defines {l : List Entry} {a b : Entry} (ha : a ∈ l) (hb : defines l b.group b.key = false) :
+    keyOf a ≠ keyOf b := by
+  intro h
+  have := defines_of_mem ha
+  unfold keyOf at h
+  rw [Prod.mk.injEq] at h
+  rw [h.1, h.2, hb] at this
+  exact absurd this (by simp)
+
+theorem firstDefsAux_spec (seen l : List Entry) :
+    KeysNodup (firstDefsAux seen l) ∧ ∀ e ∈ firstDefsAux seen l, defines seen e.group e.key = false := by
+  induction l generalizing seen with
+  | nil => simp [firstDefsAux, KeysNodup]
+  | cons x xs ih =>
+    unfold firstDefsAux
+    have hrest := ih (seen ++ [x])
+    have hweak : ∀ e ∈ firstDefsAux (seen ++ [x]) xs, defines seen e.group e.key = false := by
+      intro e he
+      have := hrest.2 e he
+      rw [defines_snoc] at this
+      cases hh : defines seen e.group e.key <;> simp_all
+    split
+    · exact ⟨hrest.1, hweak⟩
+    · rename_i hx
+      refine ⟨?_, ?_⟩
+      · unfold KeysNodup
+        rw [List.pairwise_cons]
+        refine ⟨?_, hrest.1⟩
+        intro b hb
+        have := hrest.2 b hb
+        exact keyOf_ne_of_not_defines (l := seen ++ [x]) (by simp) this
+      · intro e he
+        rcases List.mem_cons.mp he with rfl | he
+        · simpa using hx
+        · exact hweak e he
+
+theorem firstDefs_nodup (l : List Entry) : KeysNodup (firstDefs l) := (firstDefsAux_spec [] l).1
+
+theorem block_nodup (ef : List Entry) (q : Entry → Bool) : KeysNodup (((firstDefs ef).filter q).map cpyEntry) := by
+  unfold KeysNodup
+  rw [List.pairwise_map]
+  exact (firstDefs_nodup ef).sublist List.filter_sublist
+
+
 end Econf
